@@ -46,10 +46,10 @@ mutual
        | .unsupported => false)
   def dentsOK : List DEnt → Bool
     | [] => true
-    | .mk k ptr (.prim p) :: rest => dentsOK rest
-    | .mk k ptr (.struct sd) :: rest => SD.OK sd && dentsOK rest
-    | .mk k ptr (.dyn _ _) :: rest => dentsOK rest
-    | .mk k ptr .unsupported :: rest => dentsOK rest
+    | .mk _ _ (.prim _) :: rest => dentsOK rest
+    | .mk _ _ (.struct sd) :: rest => SD.OK sd && dentsOK rest
+    | .mk _ _ (.dyn _ _) :: rest => dentsOK rest
+    | .mk _ _ .unsupported :: rest => dentsOK rest
 end
 
 mutual
@@ -125,7 +125,7 @@ mutual
   def WFfv (f : Fld) : FV → List FV → Prop
     | .one v, _ => f.slice = false ∧ f.ignored = false ∧ WFv f.ty v
     | .many vs, _ => f.slice = true ∧ f.ignored = false ∧ (f.required = true → vs ≠ []) ∧ WFmany f.ty vs
-    | .dyn .nil, _ => f.slice = false ∧ f.ignored = false ∧ f.required = false
+    | .dyn .nil, _ => f.slice = false ∧ f.ignored = false ∧ f.required = false ∧ ∃ sel table, f.ty = .dyn sel table
     | .dyn (.val _ ty v), prev =>
       f.slice = false ∧ f.ignored = false ∧
       (∃ sel table fv k e, f.ty = .dyn sel table ∧ prev[sel]? = some fv ∧ keyOf fv = some k ∧
